@@ -485,6 +485,27 @@ def analyze(ctx, want):
     # loop bound: the loop continues while fewer than n matches were collected
     lt = [c for p in paths for c, o in p.conds if c[0] == "binop" and c[1] in ("Lt", "Ge", "Le", "Gt", "Ne", "Eq") and "len" in S.vstr(c) and "n" in (S.vstr(c[2]), S.vstr(c[3]))]
     ob("C11.e", "peek_n:loop-bounded-by-n", bool(lt), "loop condition compares the number of collected matches with n: %s" % (S.vstr(lt[0]) if lt else None), pk.loc())
+    # ... and it is *that* comparison which lets the loop go on: every iteration that makes an attempt has found fewer than n
+    # matches so far (a loop that counts iterations instead — `for _ in 0..n` — spends one of them on every skipped character
+    # and previews fewer tokens than next() will deliver)
+    def fewer_than_n(c, o):
+        if not (c[0] == "binop" and "len" in S.vstr(c)):
+            return False
+        a_, b_ = S.vstr(c[2]), S.vstr(c[3])
+        if b_ == "n" and "len" in a_:
+            return (c[1], o) in (("Lt", True), ("Ge", False), ("Eq", False), ("Ne", True))
+        if a_ == "n" and "len" in b_:
+            return (c[1], o) in (("Gt", True), ("Le", False), ("Eq", False), ("Ne", True))
+        return False
+    n_it = 0
+    for p in paths:
+        if not p.calls(r"ScannerImpl::peek_from$"):
+            continue
+        n_it += 1
+        ok = any(fewer_than_n(c, o) for c, o in p.conds)
+        ob("C11.e", "peek_n:an-attempt-is-made-only-while-fewer-than-n-matches-were-collected", ok,
+           "conditions on a path with an attempt: %s" % [("%s=%s" % (S.vstr(c)[:50], o)) for c, o in p.conds][:5], pk.loc())
+    ctx.floor("C11.e", "peek_n iterations with an attempt", n_it, 3)
     # transitive purity (effects)
     w = F.may_write(pk)
     forb = {"char_indices", "last_position", "last_char", "line_offsets", "offset"}
@@ -907,7 +928,8 @@ def analyze(ctx, want):
         ob("C09.c", "record_line_offset:newline-test-on-last_char", S.vstr(c) == "self.last_char", "tests %s" % S.vstr(c), rl.loc())
         seen_nl.add(o)
         if o is True:
-            ok = len(mg) == 1 and single_element(ex.deref_val(p, mg[0][3][1]) if mg[0][3][1][0] == "ref" else mg[0][3][1], ex, p) == ("sym", "i")
+            a_ = (ex.deref_val(p, mg[0][3][1]) if mg[0][3][1][0] == "ref" else mg[0][3][1]) if len(mg) == 1 else None
+            ok = len(mg) == 1 and (a_ if _scalar_merge(ex) and single_element(a_, ex, p) is None else single_element(a_, ex, p)) == ("sym", "i")
             ob("C09.d", "record_line_offset:records-the-given-offset-after-newline", ok, "merge_line_offsets(%s)" % [S.vstr(x[3][1]) for x in mg], rl.loc())
         else:
             ob("C09.c", "record_line_offset:no-record-without-newline", not mg, "merge without newline", rl.loc())
@@ -917,6 +939,7 @@ def analyze(ctx, want):
     mg = F.fn(r"FindMatchesImpl::<..>::merge_line_offsets$")
     ctx.analysed_fn(mg)
     ex, paths = run_fn(mg, F, Model(), max_paths=5000)
+    scalar = mg.j.get("argc", 0) == 2 and mg.j["locals"][2]["ty"] == "usize"
     got = {"Ok": 0, "Err": 0}
     for p in paths:
         bs = p.calls(r"<impl \[usize\]>::binary_search(_by::<.*>)?$")
@@ -924,6 +947,50 @@ def analyze(ctx, want):
         oth = p.calls(r"Vec::<usize>::(push|remove|clear|truncate|pop|swap_remove|retain|dedup|sort|drain)")
         ob("C09.b", "merge_line_offsets:only-insert-mutates", not oth, "other mutations: %s" % [M.short_name(x[2]) for x in oth], mg.loc())
         if not bs:
+            pp = p.calls(r"(<impl \[usize\]>|slice)::partition_point(::<.*>)?$")
+            if len(pp) == 1:
+                # lower-bound form: i = partition_point(|&s| s < offset) is the index of the first recorded line start that is not
+                # below the offset; the offset is known iff the entry at i equals it, otherwise it is inserted at i — the same
+                # table as the binary search (Ok(_) = present at i, Err(i) = insert at i)
+                b = pp[0]
+                ob("C09.b", "merge_line_offsets:searches-line_offsets", "self.line_offsets" in S.vstr(b[3][0]), "partition_point on %s" % S.vstr(b[3][0]), mg.loc(b[1]))
+
+                def strip_(x_):
+                    n_ = 0
+                    while n_ < 6 and x_[0] in ("ref", "deref"):
+                        x_ = ex.deref_val(p, x_) if x_[0] == "ref" else x_[1]
+                        n_ += 1
+                    return x_
+                guard = None
+                for c, o in p.conds:
+                    if c[0] == "binop" and c[1] in ("Ne", "Eq") and isinstance(o, bool):
+                        for g_, k_ in ((c[2], c[3]), (c[3], c[2])):
+                            g_, k_ = strip_(g_), strip_(k_)
+                            if g_[0] == "app" and re.search(r"(^|::)get(::<.*>)?$", str(g_[1])) and len(g_[2]) == 2 and "self.line_offsets" in S.vstr(g_[2][0]) and strip_(g_[2][1]) == b[4] \
+                                    and k_[0] == "adt" and k_[2] == "Some" and len(k_[3]) == 1:
+                                guard = (strip_(k_[3][0]), (c[1] == "Eq") == o)
+                if guard is None:
+                    ob("C09.b", "merge_line_offsets:presence-test-at-the-lower-bound", False, "no test `line_offsets.get(i) ==/!= Some(&offset)` on the result of partition_point", mg.loc(b[1]))
+                    continue
+                key, present = guard
+                f = strip_(b[3][1]) if b[3][1][0] == "ref" else b[3][1]
+                tf = _pred_true_for(ex, F, p, f, key)
+                ob("C09.b", "merge_line_offsets:lower-bound-of-the-offset", tf == {"L"}, "the predicate of partition_point is true for elements %s the offset (must be: below only — with `<=` an entry equal to the offset lies before i and is inserted again)" % ("/".join({"L": "below", "E": "equal to", "G": "above"}[x] for x in sorted(tf)) if tf is not None else "? (not analysable)"), mg.loc(b[1]))
+                if scalar:
+                    ob("C09.b", "merge_line_offsets:searches-for-the-current-offset", key == ("sym", mg.names().get(2, "arg2")), "lower bound of %s" % S.fstr(key)[:60], mg.loc(b[1]))
+                else:
+                    ob("C09.b", "merge_line_offsets:continues-with-the-next-offset", p.end[0] == "cut", "after the presence test the loop is left (%s): later line starts of the batch are lost" % p.end[0], mg.loc(b[1]))
+                    nx_ = [c_ for c_ in p.calls(r"iter::Iterator>::next$|IntoIter<.*>::next$")]
+                    from_batch = "item@" in S.fstr(key) or any(S.mentions(key, lambda x, r_=c_[4]: x == r_) for c_ in nx_)
+                    ob("C09.b", "merge_line_offsets:searches-for-the-current-offset", from_batch, "lower bound of %s" % S.fstr(key)[:60], mg.loc(b[1]))
+                if present:
+                    got["Ok"] += 1
+                    ob("C09.b", "merge_line_offsets:known-offset-not-duplicated", not ins, "insert although the offset is present", mg.loc())
+                else:
+                    got["Err"] += 1
+                    ok = len(ins) == 1 and strip_(ins[0][3][1]) == b[4] and strip_(ins[0][3][2]) == key and "self.line_offsets" in S.vstr(ins[0][3][0])
+                    ob("C09.b", "merge_line_offsets:insert-at-search-position", ok, "insert(%s)" % [", ".join(S.vstr(a) for a in x[3]) for x in ins], mg.loc())
+                continue
             ob("C09.b", "merge_line_offsets:no-insert-without-search", not ins, "insert without binary search", mg.loc())
             continue
         b = bs[-1]
@@ -951,8 +1018,12 @@ def analyze(ctx, want):
                 ob("C09.b", "merge_line_offsets:searches-for-the-current-offset", False, "search key of binary_search_by not recognised", mg.loc(b[1]))
                 continue
         # every offset of the batch is looked at: the body never leaves the loop, whatever the search says
-        ob("C09.b", "merge_line_offsets:continues-with-the-next-offset", p.end[0] == "cut", "after a search with outcome %s the loop is left (%s): later line starts of the batch are lost" % (v, p.end[0]), mg.loc(b[1]))
-        ob("C09.b", "merge_line_offsets:searches-for-the-current-offset", "item@" in S.fstr(key), "binary_search(&%s)" % S.fstr(key)[:60], mg.loc(b[1]))
+        if scalar:
+            # one offset per call: the searched value is the parameter itself
+            ob("C09.b", "merge_line_offsets:searches-for-the-current-offset", key == ("sym", mg.names().get(2, "arg2")), "binary_search(&%s)" % S.fstr(key)[:60], mg.loc(b[1]))
+        else:
+            ob("C09.b", "merge_line_offsets:continues-with-the-next-offset", p.end[0] == "cut", "after a search with outcome %s the loop is left (%s): later line starts of the batch are lost" % (v, p.end[0]), mg.loc(b[1]))
+            ob("C09.b", "merge_line_offsets:searches-for-the-current-offset", "item@" in S.fstr(key), "binary_search(&%s)" % S.fstr(key)[:60], mg.loc(b[1]))
         if v == "Ok":
             got["Ok"] += 1
             ob("C09.b", "merge_line_offsets:known-offset-not-duplicated", not ins, "insert although the offset is present", mg.loc())
@@ -1151,6 +1222,61 @@ def analyze(ctx, want):
                 ob("C09.e", "with_positions:one-token-taken-from-the-wrapped-iterator", ok, "calls %s" % [M.short_name(x[2]) for x in p.calls(".")], fn.loc())
 
 
+
+def _pred_true_for(ex, F, p, f, key):
+    """The orderings of (element ? key) for which the one-argument predicate closure `f` (analysed in the frame of path p) returns
+    true: a subset of {"L", "E", "G"}, or None when the closure is not of the form `elem <op> key`."""
+    if not (f[0] == "closure" and f[1] in F.fns):
+        return None
+    from .kernel import binop_set, FLIP
+    cfn = F.fns[f[1]]
+    ex3 = S.Engine(cfn, F, Model(), cut_edges=cfn.back_edges())
+    ip = p.fork()
+    ip.end = None
+    ip.locals[(ex3.fid, 1)] = ("ref", ("loc", f, ()), False)
+    ip.locals[(ex3.fid, 2)] = ("ref", ("loc", ("sym", "elem"), ()), False)
+    true_for = set()
+    n0 = len(p.conds)
+    for q in ex3.run(0, ip.fork()):
+        if q.end[0] != "return":
+            return None
+
+        def norm(x, q=q):
+            n_ = 0
+            while n_ < 6:
+                n_ += 1
+                if x[0] == "ref":
+                    x = ex3.deref_val(q, x)
+                elif x[0] == "deref":
+                    x = x[1]
+                else:
+                    break
+            return x
+        oset = {"L", "E", "G"}
+        for c, o in q.conds[n0:]:       # (the conditions the closure itself adds to those of the calling path)
+            if c[0] == "binop" and c[1] in ("Lt", "Le", "Gt", "Ge", "Eq", "Ne") and isinstance(o, bool):
+                a_, b_ = norm(c[2]), norm(c[3])
+                if a_ == ("sym", "elem") and b_ == key:
+                    oset &= binop_set(c[1], o)
+                elif b_ == ("sym", "elem") and a_ == key:
+                    oset &= {FLIP[x] for x in binop_set(c[1], o)}
+                else:
+                    return None
+        val = q.end[1]
+        if val[0] == "binop" and val[1] in ("Lt", "Le", "Gt", "Ge", "Eq", "Ne"):
+            a_, b_ = norm(val[2]), norm(val[3])
+            if a_ == ("sym", "elem") and b_ == key:
+                true_for |= oset & binop_set(val[1], True)
+            elif b_ == ("sym", "elem") and a_ == key:
+                true_for |= oset & {FLIP[x] for x in binop_set(val[1], True)}
+            else:
+                return None
+        elif val == ("bool", True):
+            true_for |= oset
+        elif val != ("bool", False):
+            return None
+    return true_for
+
 def single_element(v, ex=None, p=None):
     """x if v is a one-element batch of line starts: vec![x], [x], std::iter::once(x), Some(x), slice::from_ref(&x)"""
     while v[0] == "deref":
@@ -1174,9 +1300,21 @@ def recorded_line_starts(ex, p):
         a = mg[3][1]
         a = ex.deref_val(p, a) if a[0] == "ref" else a
         x = single_element(a, ex, p)
+        if x is None and _scalar_merge(ex):
+            x = a       # the insertion takes one line start at a time
         if x is not None:
             out.append((x, mg[1]))
     return out
+
+
+def _scalar_merge(ex):
+    """True when the sorted insertion into line_offsets takes a single offset (`fn insert_line_offset(&mut self, offset: usize)`)
+    instead of a batch"""
+    try:
+        mg = ex.facts.fn_opt(r"FindMatchesImpl::<..>::merge_line_offsets$")
+    except Exception:
+        return False
+    return bool(mg) and mg[0].j.get("argc", 0) == 2 and mg[0].j["locals"][2]["ty"] == "usize"
 
 
 def _last_of_prefix(y):
